@@ -13,13 +13,16 @@ PID = "C05"
 LEAN_MODULE = "NiVerif.Props.C05"
 NAMESPACE = "Props.C05"
 DRIVER = "drivers/C05.lean"
-GEN_MODULES = ["ComplexDtypes"]
+GEN_MODULES = ["ComplexDtypes", "ComplexConvert"]
 EXTRA_LEAN_MODULES = ["NiVerif.Model.Complex"]
 THEOREMS = ["ci32_layout", "supported_iff", "field_table", "bitlen_le", "roundNat_exact", "roundDy_int_exact",
             "field_to_float_exact", "trunc_toward_zero", "trunc_int", "field_to_int_is_trunc", "field_roundtrip",
             "pipeline_is_map", "convertElems_ok", "convertElems_indep", "convert_elementwise", "gather_map", "convert_view",
             "to_float_exact", "roundtrip", "to_int_truncates", "same_dtype_identity", "unsupported_dtype_TypeError",
-            "roundNat_dvd_exact", "widen_exact", "c64_to_c128_exact"]
+            "roundNat_dvd_exact", "widen_exact", "c64_to_c128_exact",
+            # T25: the generated convert_complex / _convert_complexint32_array (Gen/ComplexConvert.lean)
+            "gen_inner_eq", "scalar_has_one", "gen_convert_complex_eq_model", "gen_convert_wf", "gen_to_float_exact", "gen_roundtrip",
+            "gen_to_int_truncates"]
 RULE = ("(1) every ComplexInt32 value: quick = all 2^16 real parts x 12 edge/seeded imaginary parts and the transposed set, "
         "thorough = all 2^32 (real, imag) pairs, converted to complex64 and complex128 and back, compared with values built "
         "from index arithmetic; (2) float inputs adjacent to every integer of the int16 range (n, n+-ulp, n+-0.5, n+-0.999) in "
@@ -407,6 +410,17 @@ def run(ctx):
             r = outcome(convert_complex, req, v)
             lines.append(f"cconv {dt_name(req)} {dt_name(src)} {shape_txt(np.shape(v))} {enc_arr(v)}")
             expect.append(f"ok {dt_name(req)} {shape_txt(np.shape(r[1]))} {enc_arr(r[1])}" if r[0] == "ok" else "err " + r[1])
+    # every request also goes through the generated convert_complex (Gen/ComplexConvert.lean, T25)
+    glines = ["gconv" + q[len("cconv"):] for q in lines if q.startswith("cconv ")]
+    gexpect = [e for q, e in zip(lines, expect) if q.startswith("cconv ")]
+    gres = ctx.model(glines, driver="drivers/ComplexConvert.lean")
+    if gres is not None:
+        for q, want, got in zip(glines, gexpect, gres):
+            if got != want:
+                ctx.mismatch(stream="generated convert_complex", request=q[:300], model_says=got[:300], code_says=want[:300])
+                break
+    ctx.extra["generated_lines_compared"] = len(glines)
+    ctx.evaluations += len(glines)
     res = ctx.model(lines)
     if res is not None:
         for q, want, got in zip(lines, expect, res):
